@@ -514,28 +514,39 @@ func runR26(c *Ctx) {
 	// reader: empty cell -> NaN in the float stage; -> null under EmptyNull in the string stage
 	if fn := p.anchorColumnToData(); fn != nil {
 		nan, emptyNull := false, false
+		// columnToData and the helpers of its package it calls (an extracted parseFloatColumn)
+		scope := []*ssa.Function{fn}
 		eachInstr(fn, func(in ssa.Instruction) {
-			call, ok := in.(*ssa.Call)
-			if !ok {
-				return
-			}
-			if isFuncNamed(calleeObj(call), "math", "", "NaN") {
-				for _, g := range dominatingGuards(call.Block()) {
-					if b, ok := g.Cond.(*ssa.BinOp); ok && b.Op == token.EQL && g.Val {
-						if fieldNameOfLoad(b.X) == "start" && fieldNameOfLoad(b.Y) == "end" {
-							nan = true
-						}
-					}
-				}
-			}
-			if o := calleeObj(call); o != nil && o.Name() == "NewPointer" && len(call.Call.Args) == 3 && isConstBool(call.Call.Args[2], true) {
-				for _, g := range dominatingGuards(call.Block()) {
-					if fieldNameOfLoad(g.Cond) == "EmptyNull" && g.Val {
-						emptyNull = true
-					}
+			if call, ok := in.(*ssa.Call); ok {
+				if callee := call.Call.StaticCallee(); callee != nil && callee.Pkg == fn.Pkg && callee.Blocks != nil {
+					scope = append(scope, callee)
 				}
 			}
 		})
+		for _, sf := range scope {
+			eachInstr(sf, func(in ssa.Instruction) {
+				call, ok := in.(*ssa.Call)
+				if !ok {
+					return
+				}
+				if isFuncNamed(calleeObj(call), "math", "", "NaN") {
+					for _, g := range dominatingGuards(call.Block()) {
+						if b, ok := g.Cond.(*ssa.BinOp); ok && b.Op == token.EQL && g.Val {
+							if fieldNameOfLoad(b.X) == "start" && fieldNameOfLoad(b.Y) == "end" {
+								nan = true
+							}
+						}
+					}
+				}
+				if o := calleeObj(call); o != nil && o.Name() == "NewPointer" && len(call.Call.Args) == 3 && isConstBool(call.Call.Args[2], true) {
+					for _, g := range dominatingGuards(call.Block()) {
+						if fieldNameOfLoad(g.Cond) == "EmptyNull" && g.Val {
+							emptyNull = true
+						}
+					}
+				}
+			})
+		}
 		if nan {
 			c.ok(fname(fn)+"|empty float", p.pos(fn.Pos()), "empty cell -> NaN")
 		} else {
